@@ -191,6 +191,8 @@ func genCase(r *core.Rand) *kase {
 	}
 	if r.Chance(1, 3) {
 		k.lb = 1 + r.Intn(2)
+	} else if r.Chance(1, 5) {
+		k.lb, k.fails, k.mode = 3, 0, 0 // fastcgi transport
 	}
 	// ---- connection
 	k.remote = remoteAddr(r)
@@ -249,6 +251,11 @@ func genCase(r *core.Rand) *kase {
 	if r.Chance(1, 10) {
 		k.hdrs = append(k.hdrs, hdrField{r.Pick([]string{"User-Agent", "Te", "Accept", "Forwarded"}), r.Pick([]string{"x", "trailers", "for=10.0.0.1"})})
 	}
+	if k.lb == 3 && r.Chance(1, 25) {
+		// a field spelled with underscores: CGI gives it the same variable name as the hyphenated field
+		k.hdrs = append(k.hdrs, hdrField{r.Pick([]string{"X_Forwarded_For", "x_forwarded_proto", "X_Forwarded-Host", "X-Forwarded_For"}),
+			r.Pick([]string{"6.6.6.6", "https", "evil.test"})})
+	}
 	// shuffle a little: wire order between different names must not matter, order within a name does
 	if len(k.hdrs) > 1 && r.Chance(1, 3) {
 		i, j := r.Intn(len(k.hdrs)), r.Intn(len(k.hdrs))
@@ -293,7 +300,7 @@ func (p *prop) Generate(rng *core.Rand, tier string, emit func(string)) {
 		"req nil nil 0 . 000 - 0 - . . 0 0 .", "req nil nil 3 . 000 - 0 - . . 0 0 0 0 .", "req nil nil 0 . 00 - 0 - . . 0 0 0 0 .",
 		"req nil nil 0 . 000 zz 0 - . . 0 0 0 0 .", "req nil nil 0 . 000 - 4 - . . 0 0 0 0 .", "req 10.0.0.0/8 nil 0 nil 000 - 0 - . . 0 0 0 0 10",
 		"req x!,y nil 0 . 000 - 0 - . . 0 0 0 0 10,10", "req nil nil 0 . 000 - 0 - 41 . 0 0 0 0 .", "req nil nil 0 . 000 - 0 - 41:42:43 . 0 0 0 0 .",
-		"req nil nil 0 . 000 - 0 - . . 3 0 0 0 .", "req nil nil 0 . 000 - 0 - . . 1 3 0 0 .", "req nil nil 0 . 000 - 0 - . . 2 2 0 0 .", "req nil nil 0 . 000 - 0 - . . 0 0 2 0 .", "req nil nil 0 . 000 - 0 - . . 0 0 0 3 .", "req nil nil 0 . 000 - 0 - . . 0 0 0 .",
+		"req nil nil 0 . 000 - 0 - . . 3 0 0 0 .", "req nil nil 0 . 000 - 0 - . . 1 3 0 0 .", "req nil nil 0 . 000 - 0 - . . 2 2 0 0 .", "req nil nil 0 . 000 - 0 - . . 0 0 2 0 .", "req nil nil 0 . 000 - 0 - . . 0 0 0 4 .", "req nil nil 0 . 000 - 0 - . . 0 0 0 .",
 	} {
 		emit(l)
 	}
